@@ -1,7 +1,10 @@
 SPECIFICATION Spec
 CONSTANTS
- MaxPkts = 2
+ MaxPkts = 1
  T1Retries = 1
+ Closers = {}
+ Aborters = {8}
+ Readers = {5}
  defaultInitValue = defaultInitValue
 INVARIANT LockOrder
 PROPERTY TerminatesWhenClosed
